@@ -47,8 +47,8 @@ CHECKS = {
   "DESIGN.md §5 C13"),
  "C08": ("seqx+coop",
   "explicit-state search over all fragment arrival sequences on the real reassembler vs an interval-coverage reference; stateless model checking (all schedules, cooperative scheduler) of concurrent fragment delivery",
-  "Every arrival sequence (with repetition, depth <=5 quick / <=6 thorough) of consistent 8-byte-aligned fragments of 1-2 interleaved datagrams of 1-4 units, plus advance(31 s), is replayed on a fresh real Fragmentation and compared call by call with a coverage reference (done exactly when complete + last seen, payload byte-exact, nothing delivered otherwise, old fragments not combined after the timeout). 13 concurrent programs (2-3 threads feeding fragments of 1-2 datagrams) are explored over all schedules (unbounded preemptions for 2 threads, <=3/<=5 for 3 threads).",
-  "Fragments agree on content and datagram end (contradictory fragments belong to C07). Keys are Process ids; the ipv4 hash path is exercised by the net-group checks once built. Virtual clock.",
+  "Every arrival sequence (with repetition, depth <=5 quick / <=6 thorough) of consistent 8-byte-aligned fragments of 1-2 interleaved datagrams of 1-4 units, plus advance(31 s), is replayed on a fresh real Fragmentation and compared call by call with a coverage reference (done exactly when complete + last seen, payload byte-exact, nothing delivered otherwise, old fragments not combined after the timeout). Long histories: 60 datagrams in sequence on one context with small memory limits, every ordered pair of 10 arrival patterns. Keys: every tuple that differs from one of three base (source, destination, id, protocol) tuples in exactly one octet must get a different key from the real hash.IPv4FragmentHash; a collision search over 2^22 tuples feeds the colliding datagrams to the real reassembler (known finding D22). 13 concurrent programs (2-3 threads feeding fragments of 1-2 datagrams) are explored over all schedules (unbounded preemptions for 2 threads, <=3/<=5 for 3 threads).",
+  "Fragments agree on content and datagram end (contradictory fragments belong to C07). The sequence / schedule exploration uses Process ids of its own; the key function is checked by the keys job. Virtual clock. Known finding D22 (32-bit hash key collisions).",
   "DESIGN.md §3.1, §3.3, §5 C08"),
  "C10": ("seqx+enum+coop",
   "explicit-state search over reserve/release histories vs a reference set; exhaustive enumeration of all 49536 ephemeral start offsets; stateless model checking of racing reservations with brute-force linearizability",
